@@ -32,7 +32,11 @@ man = dict(
                baseline_off_cmd="cd /repo && /venv/bin/python -m pytest -ra -q -p no:cacheprovider --timeout=900 --continue-on-collection-errors",
                source_commits=HOOK_COMMITS, add_only=True),
     engines=[dict(name="tlc", path="/verif/check", serves_properties=[c["property_id"] for c in checks],
-                  kind_free_text="explicit TLA+ specifications (specs/) model-checked with TLC, bound to the code by replaying TLC-generated transitions/behaviours into the real objects and by validating traces / observation tables recorded from the real code against the specifications")],
+                  kind_free_text="explicit TLA+ specifications (specs/) model-checked with TLC, bound to the code by replaying TLC-generated transitions/behaviours into the real objects and by validating traces / observation tables recorded from the real code against the specifications"),
+             dict(name="apalache", path="/verif/check", serves_properties=["C08"],
+                  kind_free_text="symbolic check (apalache-mc, length 0) of the SeqRing laws for all positions of the real 65535-ring (specs/ApaSeqRing.tla); one step of the C08 check"),
+             dict(name="tlc-extensions", path="/verif/check", serves_properties=[],
+                  kind_free_text="extension specifications beyond the listed properties (DESIGN.md section 8): ./check X01..X05 --tier quick|thorough - TaskPool.tla (thread interleaving at access grain), RateLimit.tla/Lru.tla, Http.tla/HttpConn.tla, Input.tla, HttpClient.tla; same exit-code contract, evidence/X0n.json")],
     checks=checks,
     notes=NOTES,
     not_applicable=na)
